@@ -149,7 +149,7 @@ def parse_operand(s):
         return ("move", parse_place(s[5:]))
     if s.startswith("const "):
         return ("const", s[6:].strip())
-    if re.fullmatch(r"[A-Za-z_][\w:]*(::<.*>)?", s):
+    if re.fullmatch(r"[A-Za-z_][\w:]*(::<.*>)?", s) or re.fullmatch(r"<.* as .*>::\w+(::<.*>)?", s, re.S):
         # a function item used as a value
         return ("const", "ZeroSized: fn {%s}" % s)
     raise ParseError("operand %r" % s)
